@@ -167,14 +167,50 @@ def judge(r, sig_prefix, ctx, data, sel, inside, st, got):
 
 
 class S:
-    def __init__(self):
+    """one file per case.  Besides the block under test ("b") the file holds a DECOY block created first, whose
+    entities carry the names the scenarios use ("d", "tag", "mt", "pos", "ext") but another geometry and other
+    units; it is evaluated once before the scenario and once after it.  Anything the library remembers under a
+    name (instead of per entity) then serves the wrong geometry to one of the two."""
+
+    def __init__(self, r=None):
         env.install_seams()
         env.reset_execution()
+        self.r = r
         self.path = env.fresh_path("c08_")
         self.f = nix.File.open(self.path, nix.FileMode.Overwrite)
+        b0 = self.f.create_block("a-decoy", "t")
+        dd = b0.create_data_array("d", "t", data=np.arange(10.0) * -1.0)
+        dd.append_sampled_dimension(7.0, unit="kV", offset=100.0)
+        dt_ = b0.create_tag("tag", "t", [107.0])
+        dt_.extent = [14.0]
+        dt_.units = ["kV"]
+        dt_.references.append(dd)
+        dp = b0.create_data_array("pos", "t", data=np.array([114.0]))
+        dx = b0.create_data_array("ext", "t", data=np.array([7.0]))
+        dm = b0.create_multi_tag("mt", "t", dp)
+        dm.extents = dx
+        dm.units = ["kV"]
+        dm.references.append(dd)
+        self.decoy = (dt_, dm)
+        self.decoy_check("before")
         self.b = self.f.create_block("b", "t")
 
+    def decoy_check(self, when):
+        dt_, dm = self.decoy
+        got_t = np.asarray(dt_.tagged_data(0)[:]).tolist()
+        got_m = np.asarray(dm.tagged_data(0, 0)[:]).tolist()
+        if (got_t != [-1.0, -2.0] or got_m != [-2.0]) and self.r is not None:
+            self.r.viol("C08|decoy-block-same-names|%s" % when,
+                        "the tag / multi tag of ANOTHER block (same entity names, other geometry) return %r / %r %s the "
+                        "scenario, expected [-1,-2] / [-2] (end excluded)" % (got_t, got_m, when), {})
+
     def close(self):
+        try:
+            if self.r is not None and not self.r.violations:
+                self.decoy_check("after")
+        except Exception as e:  # noqa
+            if self.r is not None:
+                self.r.viol("C08|decoy-block-same-names|raises-%s" % type(e).__name__, "evaluating the decoy block raises %s" % e, {})
         env.safe_close(self.f)
         env.rm(self.path)
 
@@ -239,7 +275,7 @@ def resolve(case):
 def run_tag(case, r):
     shape, specs = resolve(case)
     rank = len(shape)
-    s = S()
+    s = S(r)
     try:
         da, data = mk_array(s, "d", shape, specs)
         cs = [coords(sp, n) for sp, n in zip(specs, shape)]
@@ -296,7 +332,7 @@ def run_units(case, r):
     spec = variants(kind, n)[0]
     for tp in PREF:
         for dp in PREF:
-            s = S()
+            s = S(r)
             try:
                 da, data = mk_array(s, "d", (n,), [spec], units=[dp + "s"])
                 c = coords(spec, n)
@@ -325,7 +361,7 @@ def run_units(case, r):
 def run_mtag(case, r):
     shape, specs = resolve(case)
     rank = len(shape)
-    s = S()
+    s = S(r)
     try:
         da, data = mk_array(s, "d", shape, specs)
         cs = [coords(sp, n) for sp, n in zip(specs, shape)]
@@ -378,7 +414,7 @@ def run_feat(case, r):
     kind = case["kind"]
     n = 5
     spec = variants(kind, n)[0]
-    s = S()
+    s = S(r)
     try:
         da, data = mk_array(s, "d", (n,), [spec])
         fa, fdata = mk_array(s, "f", (n, 2), [spec, ("set", False)])
@@ -431,7 +467,7 @@ def run_nondyadic(case, r):
     for sample k (position_at); a point tag on sample k selects sample k, a region from k to j selects k..j"""
     iv, off = case["iv"], case["off"]
     n = 40
-    s = S()
+    s = S(r)
     try:
         data = np.arange(float(n)) + 1
         da = s.b.create_data_array("d", "t", data=data)
@@ -472,7 +508,7 @@ def run_multiref(case, r):
     n = 5
     spec = variants(kind, n)[0]
     c = coords(spec, n)
-    s = S()
+    s = S(r)
     try:
         tag = s.b.create_tag("tag", "t", [0.0])
         tag.units = ["ms"]
